@@ -137,7 +137,7 @@ ObjVerdict(e, heap, Want) ==
              [] e.op = "cmp"      -> IF w18 THEN CmpVerdict(e) ELSE {}
              [] e.op = "ordinal"  -> IF w18 THEN OrdinalVerdict(e) ELSE {}
              [] e.op = "sorted"   -> IF w18 THEN SortedVerdict(e) ELSE {}
-             [] e.op = "hash"     -> {}
+             [] e.op \in {"hash", "api"} -> {}
              [] OTHER             -> {"bind.unknown_op:" \o e.op}
   IN  [fails |-> f, cls |-> {"op=" \o e.op} \cup (IF e.out.kind = "ok" THEN {"ok"} ELSE {"raise:" \o e.out.exc}), X |-> <<>>]
 
@@ -160,6 +160,7 @@ ArgsErased(e) ==
   IF IsRateEv(e) THEN <<Erase(e.teams), e.ranks, e.scores, e.tau, e.limit>>
   ELSE IF IsPredEv(e) THEN <<Erase(e.teams)>>
   ELSE IF e.op = "hash" THEN <<e.a.uid, e.a.mu, e.a.sigma>>
+  ELSE IF e.op = "api" THEN <<e.what>>
   ELSE <<>>
 
 \* permutations carried in aux: aux = [tp, mps]; new team k is base team tp[k], its member l is base member mps[k][l]
@@ -202,7 +203,7 @@ Relation(g, e, X) ==
 
     \* identical inputs (values, parameters, arguments) => identical outputs      [C14, C20, C19]
     [] role = "same" ->
-         IF ~(b.op = e.op /\ ArgsErased(b) = ArgsErased(e) /\ (b.op = "hash" \/ ModelParams(b.model) = ModelParams(e.model)))
+         IF ~(b.op = e.op /\ ArgsErased(b) = ArgsErased(e) /\ (b.op \in {"hash", "api"} \/ ModelParams(b.model) = ModelParams(e.model)))
            THEN {"bind.group_same_inputs_differ"}
          ELSE IF OutErased(b) = OutErased(e) THEN {} ELSE {GP(e, "same_inputs_different_result")}
 
